@@ -1,15 +1,166 @@
 import PytaskProofs.Lemmas.EngineCrash
 /-!
 # C05 — abrupt termination never leaves state that hides outstanding work
+
+Model: `PytaskModel/EngineCrash.lean` refines every build of `PytaskModel/Engine.lean` into the list of its atomic world
+updates (one product write, one committed state row); a process killed at any instant leaves `crashAt … k` for some `k`.
+Vocabulary (defined in `Lemmas/EngineCrash.lean`):
+* `RowsMatch P g w t` — every neighbour of `t` exists and its row equals its state: exactly when pytask reports `t` unchanged;
+* `Fresh F w t`      — the products of `t` on disk are what its body makes of the module and dependency contents on disk;
+* `Inv F P g w`      — every task whose rows match is fresh (the C02 invariant): *no stale "unchanged"*;
+* `RC F P g db`      — every *complete* row set in the database is one consistent snapshot (a property of the database alone,
+                       so no file edit can break it; it holds for the empty database and after every finished build);
+* `WF P g`           — unique task ids, the graph has the declared edges, no task consumes its own product, bodies that return
+                       have written all their products, no `persist` marks (those record stale products on purpose, cf. C02).
 -/
 namespace Pytask
 open Engine
 
 /-- **applySteps_all.** Applying all atomic updates that the step model lists for a build gives exactly the world that
-`Engine.build` computes: the step model is a refinement of the engine model, so `crashAt k` for `k ≥` the number of steps is
-the world of the finished build and the prefixes are its intermediate worlds. -/
+`Engine.build` computes: the step model refines the engine model, `crashAt k` for large `k` is the finished build and the
+shorter prefixes are the worlds a kill can leave behind. -/
 theorem C05_applySteps_all (F : BodyFn) (P : Project) (cfg : Cfg) (w : World) (picks : List Nat) (r : Result)
     (h : build F P cfg w picks = .ok r) : applySteps w (buildSteps F P cfg w picks) = r.w :=
   applySteps_build F P cfg w picks r h
+
+/-- **C05_rows_safe** (`inv_crash`). Start any build — any configuration (forced, dry, selections, failure limit), any legal
+schedule, bodies that succeed, raise early or raise after writing — in a world whose database is row-consistent, and kill it
+after any number `k` of atomic updates: in the world that is left, every task whose rows all match the files has fresh
+products. So the next build can report a task unchanged only if its products are what its body would produce now — torn row
+sets (some rows of a task committed, the others not) and half-written product sets included. -/
+theorem C05_rows_safe (F : BodyFn) (P : Project) (cfg : Cfg) (w : World) (g : G) (marks : List Nat)
+    (hdag : createDag P cfg = .ok (g, marks)) (hwf : WF P g) (hrc : RC F P g w.db) (picks : List Nat) (k : Nat) :
+    Inv F P g (crashAt F P cfg w picks k) := by
+  unfold crashAt buildSteps
+  simp only [hdag]
+  cases hso : Sorter.fromDag g isTaskV (prioFn P) with
+  | error e => simpa using inv_of_rc hwf w hrc
+  | ok so => exact inv_loop_prefix hwf cfg picks so { w := w, skipMarks := marks } hrc k
+
+/-- The hypothesis of `C05_rows_safe` holds initially … -/
+theorem C05_rc_init (F : BodyFn) (P : Project) (g : G) : RC F P g [] := by
+  intro t _ hall
+  have := hall (tv t.id) (tv_mem_neighbours g t.id)
+  simp [lookup] at this
+
+/-- … and after every build that ran to its end with exit code 0 (and it does not mention the files, so arbitrary edits of
+inputs, modules and products between builds keep it): every pre-crash history of finished builds and file edits leads to a
+world to which `C05_rows_safe` applies. -/
+theorem C05_rc_build (F : BodyFn) (P : Project) (cfg : Cfg) (w : World) (g : G) (marks : List Nat)
+    (hdag : createDag P cfg = .ok (g, marks)) (hwf : WF P g) (hrc : RC F P g w.db) (picks : List Nat) (r : Result)
+    (hb : build F P cfg w picks = .ok r) (hexit : r.exit = 0) : RC F P g r.w.db := by
+  unfold build at hb
+  simp only [hdag] at hb
+  cases hso : Sorter.fromDag g isTaskV (prioFn P) with
+  | error e => simp only [hso] at hb; cases hb; exact hrc
+  | ok so =>
+    simp only [hso] at hb
+    cases hl : buildLoop F P g cfg so { w := w, skipMarks := marks } picks with
+    | error e => simp only [hl] at hb; cases hb
+    | ok res =>
+      obtain ⟨so', s'⟩ := res
+      simp only [hl] at hb
+      cases hb
+      rcases rc_loop hwf cfg picks so _ so' s' hrc hl with hcr | h
+      · simp only [hcr, if_true] at hexit
+        exact absurd hexit (by decide)
+      · exact h
+
+/-- **C05_no_redo.** Suppose the killed build completed the protocol of `spec` with SUCCESS — body and teardown went through
+and every row of `spec` was committed (`hok`) — and whatever happened afterwards, before the kill and in the recovery build
+before `spec`'s turn (`later`), left `spec`'s module, dependencies and products alone. Then a non-forced recovery build does
+not execute `spec` again: its protocol raises before the body, the body log and the session are unchanged. (`hT`: the
+neighbours of a task are nodes, not other tasks — the graph is bipartite.) -/
+theorem C05_no_redo (F : BodyFn) (P : Project) (g : G) (cfg cfg' : Cfg) (s s' : Sess) (spec : TaskSpec)
+    (hT : ∀ v ∈ neighbours g spec.id, isTaskV v = true → v = tv spec.id)
+    (hr : (runPhases F P g cfg s spec).1 = .none)
+    (hok : (updateStates P g (runPhases F P g cfg s spec).2.w spec.id (neighbours g spec.id)).2 = true)
+    (later : List Step) (hav : ∀ st ∈ later, StepAvoids P g spec.id st)
+    (hs' : s'.w = applySteps (protocol F P g cfg s spec).w later) (hforce : cfg'.force = false) :
+    (protocol F P g cfg' s' spec).log = s'.log ∧ (runPhases F P g cfg' s' spec).2 = s' := by
+  have hm : RowsMatch P g s'.w spec.id := by
+    rw [hs']
+    exact rowsMatch_frame P g spec.id hT later _ hav (rowsMatch_after_protocol F P g cfg s spec hr hok)
+  exact ⟨protocol_rowsMatch_log F P g cfg' s' spec hforce hm, (runPhases_rowsMatch F P g cfg' s' spec hforce hm).1⟩
+
+/-- **C05_unchanged_iff_rows** ("reports unchanged" is "all rows match"): the link between the outcome pytask shows and
+`RowsMatch`, in both directions, for non-forced builds. -/
+theorem C05_unchanged_rows (F : BodyFn) (P : Project) (g : G) (cfg : Cfg) (s : Sess) (t : TaskSpec)
+    (h : (runPhases F P g cfg s t).1 = .skippedUnchanged) : RowsMatch P g s.w t.id :=
+  (rowsMatch_of_skippedUnchanged F P g cfg s t h).1
+
+/-- **C05_converge_partial** (one step of convergence). In any world in which `Inv` holds — by `C05_rows_safe` that is every
+world a kill can leave — a protocol of `spec` (any configuration) that is reported SUCCESS or SKIP_UNCHANGED leaves the
+products of `spec` fresh: what its body produces from the contents its module and dependencies have at that moment. A task
+that needed to run and did not complete cannot be reported unchanged with stale products; if it is reported SUCCESS it has been
+executed. *Missing for the full statement* ("recovery build with exit 0 ⇒ every product equals the from-scratch value, and the
+build after that executes nothing"): the chaining of these steps along the task order — that the contents of `spec`'s
+dependencies are already final when `spec` is processed (needs `C01_order` for the recovery build, failure containment
+`C04_contain`, and uniqueness of products) — i.e. the same induction as `C02_partial`, started from `Inv` at the crash world
+instead of from a finished build. With a torn row set `RC` does not hold, so that induction has to carry "the torn task and
+its ancestors are fresh and nobody rewrites their inputs with different contents" explicitly. -/
+theorem C05_converge_partial (F : BodyFn) (P : Project) (g : G) (cfg : Cfg) (s : Sess) (spec : TaskSpec)
+    (hwf : WF P g) (hspec : spec ∈ P.tasks) (hinv : Inv F P g s.w)
+    (hout : (runPhases F P g cfg s spec).1 = .none ∨ (runPhases F P g cfg s spec).1 = .skippedUnchanged) :
+    Fresh F (protocol F P g cfg s spec).w spec := by
+  have hfs : (protocol F P g cfg s spec).w.fs = (runPhases F P g cfg s spec).2.w.fs := by
+    rw [← applySteps_protocol]
+    unfold protocolSteps
+    simp only []
+    rw [applySteps_append, applySteps_phases]
+    exact applySteps_onlyRows_fs (reportSteps_onlyRows P g cfg _ spec _) _
+  rcases hout with h | h
+  · exact fresh_of_fs_eq hfs
+      (runPhases_none_fresh F P g cfg s spec (hwf.nodup spec hspec) (hwf.disj spec hspec) (hwf.honest spec hspec) h)
+  · obtain ⟨hm, hs⟩ := rowsMatch_of_skippedUnchanged F P g cfg s spec h
+    exact fresh_of_fs_eq (by rw [hfs, hs]) (hinv spec hspec hm)
+
+/-- **memo_garbage_ok.** Whatever bytes a killed writer (or anything else) left in `.pytask/file_hashes.json`: if they do not
+parse, `pytask_post_parse` starts with the empty memo (`Generated.memoLoadSuppressed`: the whole load sits in
+`suppress(Exception)`), never with an exception; the empty memo is coherent, and under a coherent memo the state of a file
+computed through the memo is the hash of its current content — which is how `Engine.stateOf` models it. -/
+theorem C05_memo_garbage_ok (parse : List UInt8 → Option Memo) (file : Option (List UInt8)) :
+    (∃ m, loadMemo parse file = some m ∧ (m = [] ∨ ∃ b, file = some b ∧ parse b = some m)) ∧
+    (∀ mtime content, MemoCoherent [] mtime content) ∧
+    (∀ (m : Memo) (mtime content : Nat → Option Nat) (p t c : Nat), MemoCoherent m mtime content → mtime p = some t →
+        content p = some c → stateVia m p t c = c) := by
+  refine ⟨?_, ?_, ?_⟩
+  · unfold loadMemo loadMemoWith
+    cases file with
+    | none => exact ⟨[], by simp [Generated.memoLoadSuppressed], Or.inl rfl⟩
+    | some b =>
+      cases hp : parse b with
+      | none => exact ⟨[], by simp [Generated.memoLoadSuppressed, hp], Or.inl rfl⟩
+      | some m => exact ⟨m, by simp [hp], Or.inr ⟨b, rfl, hp⟩⟩
+  · intro mtime content p t h hl
+    simp [lookup] at hl
+  · intro m mtime content p t c hcoh hmt hc
+    unfold stateVia
+    cases hl : lookup m (p, t) with
+    | none => rfl
+    | some h =>
+      have := hcoh p t h hl hmt
+      rw [hc] at this
+      exact (Option.some.inj this).symm
+
+/-! ## Non-vacuity: a concrete two-task chain, killed in the middle of the row commits of its first task -/
+
+example : createDag c05P {} = .ok (c05G, []) := by rfl
+
+/-- the build has 10 atomic updates; after 4 of them both products of task 0 are written and two of its four rows committed -/
+example : (buildSteps c05F c05P {} c05W [0, 1]).length = 10 := by decide
+example : (crashAt c05F c05P {} c05W [0, 1] 4).db.length = 2 ∧ (crashAt c05F c05P {} c05W [0, 1] 4).fs.length = 4 := by decide
+/-- `C05_rows_safe` applies to that torn world -/
+example : Inv c05F c05P c05G (crashAt c05F c05P {} c05W [0, 1] 4) :=
+  C05_rows_safe c05F c05P {} c05W c05G [] (by rfl) c05_wf (C05_rc_init _ _ _) [0, 1] 4
+/-- the recovery build from the torn world executes both tasks again (task 0 did not complete), then nothing -/
+example : (build c05F c05P {} (crashAt c05F c05P {} c05W [0, 1] 4) [0, 1]).toOption.map (·.log) = some [0, 1] := by decide
+/-- killed after all rows of task 0 were committed (8 = 2 writes + 4 rows + task 1's write + 1 row): task 0 is not executed again -/
+example : (build c05F c05P {} (crashAt c05F c05P {} c05W [0, 1] 8) [0, 1]).toOption.map (·.log) = some [1] := by decide
+/-- hypotheses of `C05_no_redo` on this project: the protocol of task 0 succeeds and commits all its rows -/
+example : (runPhases c05F c05P c05G {} { w := c05W } c05P.tasks.head!).1 = .none ∧
+    (updateStates c05P c05G (runPhases c05F c05P c05G {} { w := c05W } c05P.tasks.head!).2.w 0 (neighbours c05G 0)).2 = true := by decide
+/-- garbage in the memo file loads as the empty memo -/
+example : loadMemo (fun _ => none) (some [0xff, 0xfe]) = some [] := by decide
 
 end Pytask
